@@ -19,7 +19,8 @@ type skillState struct {
 
 // enhance attack,has 3 type,use 1/2/3 skill point
 
-func (c *char) initSkill() {
+// registered once per process (registering from a character instance panics on the second instance)
+func init() {
 	modifier.Register(SkillEffect, modifier.Config{
 		StatusType: model.StatusType_STATUS_BUFF,
 		Stacking:   modifier.ReplaceBySource,
